@@ -149,7 +149,8 @@ def wmom_cases(draw):
             "vkind": kinds[0], "inputmean": inputmean, "calcerr": draw(st.booleans()),
             "sdev": draw(st.booleans()),
             "container": intmode or draw(st.sampled_from(["array", "array", "list", "intarray"])),
-            "layout": draw(st.sampled_from(LY.KINDS))}
+            "layout": draw(st.sampled_from(LY.KINDS)),
+            "wdtype": draw(st.sampled_from([None, None, None, "f4", "f2", "i4"]))}
 
 
 def _wmom_inputs(case):
@@ -176,7 +177,14 @@ def check_wmom(case, ctx):
         a_in = arr.astype("i2")
     elif case["container"] in ("u1array", "u8array") and integral and arr.min() >= 0 and arr.max() < 256:
         a_in = arr.astype(case["container"][:2])
-    if case["container"] == "array" and case.get("layout"):
+    wd = case.get("wdtype")
+    if wd and case["container"] in ("array", "intarray"):
+        # weights stored in another type (single/half precision, small integers): the weights are those values
+        w = w.astype(wd).astype("f8") if wd != "i4" else np.maximum(np.round(w), 0.0)
+        if not (np.isfinite(w).all() and (w.sum(axis=0) > 0).all()):
+            w = np.ones_like(w)
+        w_in = w.astype(wd)
+    if case["container"] == "array" and case.get("layout") and not wd:
         a_in = np.asfortranarray(arr) if (arr.ndim == 2 and case["layout"] == "strided") else LY.relayout(arr, case["layout"])
         w_in = LY.relayout(w, case["layout"])
     kw = {"calcerr": case["calcerr"], "sdev": case["sdev"]}
